@@ -43,7 +43,47 @@ func genCase(t *rapid.T) Case {
 	}
 	c.Trailer = rapid.Bool().Draw(t, "trailer")
 	c.Extra = rapid.IntRange(0, 3).Draw(t, "extended") == 0
-	stream, starts := c.stream()
+	if nr > 0 && rapid.IntRange(0, 24).Draw(t, "big-value?") == 0 {
+		// one value of 70 KB .. 2 MiB (text / bytea column, added when the table has none)
+		col := -1
+		for j, cl := range c.Cols {
+			if cl.T == "text" || cl.T == "bytea" || cl.T == "varchar" {
+				col = j
+			}
+		}
+		if col >= 0 {
+			c.Big = &Inflate{Row: rapid.IntRange(0, nr-1).Draw(t, "big-row"), Col: col,
+				Len: rapid.SampledFrom([]int{70000, 1<<20 - 40, 1 << 20, 1<<20 + 17, 3 << 19, 2<<20 + 5}).Draw(t, "big-len")}
+		}
+	}
+	stream, starts := c.inflated().stream()
+	if c.Big != nil {
+		// messages stay below the limit; cuts inside, right behind and well behind the big value
+		bigEnd := len(stream)
+		if c.Big.Row+1 < len(starts) {
+			bigEnd = starts[c.Big.Row+1]
+		}
+		switch rapid.IntRange(0, 5).Draw(t, "big-chunking") {
+		case 0:
+		case 1:
+			c.Chunks = []int{starts[c.Big.Row] + rapid.IntRange(1, c.Big.Len).Draw(t, "inside-big")}
+		case 2:
+			c.Chunks = []int{bigEnd}
+		case 3:
+			c.Chunks = []int{min(len(stream), bigEnd+rapid.IntRange(1, 40).Draw(t, "behind-big"))}
+		case 4:
+			for n := 0; n < len(stream); n += 65536 {
+				c.Chunks = append(c.Chunks, 65536)
+			}
+		default:
+			k := rapid.IntRange(1000, 1<<20).Draw(t, "big-chunk-size")
+			for n := 0; n < len(stream); n += k {
+				c.Chunks = append(c.Chunks, k)
+			}
+		}
+		c.Corrupt = ""
+		return c
+	}
 	switch rapid.IntRange(0, 7).Draw(t, "chunking") {
 	case 0: // one message
 	case 1: // one row per message (header with the first row)
